@@ -67,7 +67,9 @@ def build(tier, seed):
     def _href():
         from contracts import links
         return links.href_obligations(PROP, lambda: c16.search(("end_to_end",)))
-    tasks = [standin_task(PROP, "pipeline.use_forms", lambda: __import__("bounded.c06", fromlist=["x"]).search(), "ford.fortran_project.Project.correlate (real pipeline)",
+    tasks = [standin_task(PROP, "parser.access_product", lambda: __import__("bounded.c04", fromlist=["x"]).search(), "ford.sourceform (real parser)",
+                          "what a module of A makes accessible (protected variables included) is what its exported description lists and B can link to", "access product of C04"),
+             standin_task(PROP, "pipeline.use_forms", lambda: __import__("bounded.c06", fromlist=["x"]).search(), "ford.fortran_project.Project.correlate (real pipeline)",
                           "modules a <- b <- c: every USE form (renames, ONLY lists) x b's default access: the names each scope sees are the standard's (a renamed-away name does not shadow the scope's own entity)",
                           "generated three-module projects", 1),
              a_task(PROP, _binding), a_task(PROP, _rebase), a_task(PROP, _one), a_task(PROP, _fil), a_task(PROP, _host), s_task(),
